@@ -328,14 +328,23 @@ static int local_book_besterror(codebook *book,int *a){
   if(del!=1){
     for(i=0,o=dim;i<dim;i++){
       int v = (a[--o]-minval+(del>>1))/del;
-      int m = (v<ze ? ((ze-v)<<1)-1 : ((v-ze)<<1));
+      int m;
+      /* clamp the value, not just the index: an out-of-range index is
+         not the nearest entry (it even has the wrong sign below
+         minval), and p[] must hold what was really coded */
+      if(v<0)v=0;
+      if(v>=qv)v=qv-1;
+      m = (v<ze ? ((ze-v)<<1)-1 : ((v-ze)<<1));
       index = index*qv+ (m<0?0:(m>=qv?qv-1:m));
       p[o]=v*del+minval;
     }
   }else{
     for(i=0,o=dim;i<dim;i++){
       int v = a[--o]-minval;
-      int m = (v<ze ? ((ze-v)<<1)-1 : ((v-ze)<<1));
+      int m;
+      if(v<0)v=0;
+      if(v>=qv)v=qv-1;
+      m = (v<ze ? ((ze-v)<<1)-1 : ((v-ze)<<1));
       index = index*qv+ (m<0?0:(m>=qv?qv-1:m));
       p[o]=v*del+minval;
     }
